@@ -233,7 +233,7 @@ def run_recon(case):
 
 # ------------------------------------------------------------------ STFT
 FUNCS = ["identity", "reverse", "scale"]
-STYLES = ["direct", "decorator", "partial-chain", "call-override"]
+STYLES = ["direct", "decorator", "partial-chain", "call-override", "partial-reassign"]
 
 
 def gen_stft(run):
@@ -252,7 +252,7 @@ def gen_stft(run):
                       if ola == "none" and (ola_wnd != "absent" or ola_norm != "absent"):
                         continue
                       i += 1
-                      yield (size, hop, n, func, trans, ba, wk, ola, ola_wnd, ola_norm, STYLES[i % 4])
+                      yield (size, hop, n, func, trans, ba, wk, ola, ola_wnd, ola_norm, STYLES[i % 5])
 
 
 def run_stft(case):
@@ -308,6 +308,19 @@ def run_stft(case):
       a = {k: v for k, v in kws.items() if k in ("size", "hop", "wnd")}
       b = {k: v for k, v in kws.items() if k not in a}
       res = stft(**b)(**a)(func)(list(x))
+    elif style == "partial-reassign":
+      # every option is first given a wrong value and then reassigned by a later partial step
+      wrong = dict(kws, size=size + 2, hop=1, wnd=[Q(9)] * (size + 2), ola_wnd=[Q(7)] * (size + 2),
+                   ola_normalize=not kws.get("ola_normalize", True), transform=None, inverse_transform=None)
+      if kws["ola"] is None:
+        wrong.pop("ola_wnd"); wrong.pop("ola_normalize")
+      right = dict(kws)
+      right.setdefault("hop", size)      # explicit hop=None is not an accepted spelling
+      right.setdefault("wnd", None)
+      if kws["ola"] is not None:
+        right.setdefault("ola_wnd", None)
+        right.setdefault("ola_normalize", True)
+      res = stft(**wrong)(**right)(func)(list(x))
     else:
       wrong = dict(kws, size=size + 3)
       wrong.pop("hop", None)
@@ -364,6 +377,11 @@ def run_stft(case):
   if ola_wnd == "None": ola_kw["wnd"] = None
   elif ola_wnd == "list": ola_kw["wnd"] = list(owvals)
   if ola_norm != "absent": ola_kw["normalize"] = ola_norm
+  if style == "partial-reassign":
+    if hop is None:
+      ola_kw["hop"] = size
+    ola_kw.setdefault("wnd", None)
+    ola_kw.setdefault("normalize", True)
   if olak == "fake":
     if fake_calls != [ola_kw]:
       return bad("stft:ola-params", "only size, hop and ola_-prefixed options (prefix stripped) may reach the overlap-add",
